@@ -194,6 +194,7 @@ type dialer struct {
 	proto mangos.ProtocolInfo
 	opts  options
 	iswss bool
+	lock  sync.Mutex // protects opts
 }
 
 func (d *dialer) Dial() (transport.Pipe, error) {
@@ -202,9 +203,12 @@ func (d *dialer) Dial() (transport.Pipe, error) {
 	wd := &websocket.Dialer{}
 
 	wd.Subprotocols = []string{d.proto.PeerName + ".sp.nanomsg.org"}
+	d.lock.Lock()
 	if v, ok := d.opts[mangos.OptionTLSConfig]; ok {
 		wd.TLSClientConfig = v.(*tls.Config)
 	}
+	mv, merr := d.opts.get(mangos.OptionMaxRecvSize)
+	d.lock.Unlock()
 
 	w = &wsPipe{
 		addr:    d.addr,
@@ -215,10 +219,10 @@ func (d *dialer) Dial() (transport.Pipe, error) {
 	}
 
 	maxrx := 0
-	v, err := d.opts.get(mangos.OptionMaxRecvSize)
-	if err == nil {
-		maxrx, _ = v.(int)
+	if merr == nil {
+		maxrx, _ = mv.(int)
 	}
+	var err error
 	if w.ws, _, err = wd.Dial(d.addr, nil); err != nil {
 		if err == websocket.ErrBadHandshake {
 			return nil, mangos.ErrBadProto
@@ -237,10 +241,14 @@ func (d *dialer) Dial() (transport.Pipe, error) {
 }
 
 func (d *dialer) SetOption(n string, v interface{}) error {
+	d.lock.Lock()
+	defer d.lock.Unlock()
 	return d.opts.set(n, v)
 }
 
 func (d *dialer) GetOption(n string) (interface{}, error) {
+	d.lock.Lock()
+	defer d.lock.Unlock()
 	return d.opts.get(n)
 }
 
